@@ -9,7 +9,7 @@ wt=$(mktemp -d /tmp/mutrun-XXXXXX)
 rmdir "$wt"
 git -C /repo worktree add -q --detach "$wt" HEAD || exit 2
 if ! git -C "$wt" apply "$patch"; then echo "PATCH DOES NOT APPLY"; git -C /repo worktree remove --force "$wt"; exit 2; fi
-mkdir -p /tmp/mutrun-evidence
+mkdir -p /tmp/mutrun-evidence /tmp/mutrun-replays; export VERIF_REPLAY_DIR=/tmp/mutrun-replays
 for id in "$@"; do
   echo "=== $id on $(basename $(dirname $patch))/$(basename $patch)"
   VERIF_REPO=$wt VERIF_EVIDENCE_DIR=/tmp/mutrun-evidence python3 ${VERIF_HOME:-/verif}/check.py $id --tier $tier 2>/dev/null | grep -E "^(VIOLATION|KNOWN|UNCONFIRMED|INCONCLUSIVE|OK|ENGINE|\.\.\.)" | head -12
